@@ -1183,7 +1183,7 @@ func init() {
 		})
 		core.RunLeg(c, core.Leg[c08ProgCase]{
 			Name: "B", Kind: "correspondence+oracle",
-			Rule: "straight-line capture programs: \\A followed by up to 9 constructs over an input of x's — (?<g>x), empty and two-character captures, (?<-g>x), (?<h-g>…) with content of 0-2 characters, captures and balancing groups inside look-ahead (distance 0-2) and look-behind (right-to-left Capture), fixed loops of captures, and branches / negative look-aheads that capture and then fail (nested ≤ 2) — so that the sequence of Capture / transferCapture / uncapture calls is known by construction (balancing only on a live well-formed capture). The real interpreter runs the pattern; counts, live array prefixes after tidy, group 0 and Groups() (VerifMatchArrays, Groups) are compared with the Lean builder model run on the call sequence, the model's abstract view with the generator's push/cancel stacks, and Groups() with those stacks (oracle). Every 16th case admits transfers whose interval comes out with negative length. non-trivial = has a balance or an uncapture; distinct by pattern",
+			Rule:   "straight-line capture programs: \\A followed by up to 9 constructs over an input of x's — (?<g>x), empty and two-character captures, (?<-g>x), (?<h-g>…) with content of 0-2 characters, captures and balancing groups inside look-ahead (distance 0-2) and look-behind (right-to-left Capture), fixed loops of captures, and branches / negative look-aheads that capture and then fail (nested ≤ 2) — so that the sequence of Capture / transferCapture / uncapture calls is known by construction (balancing only on a live well-formed capture). The real interpreter runs the pattern; counts, live array prefixes after tidy, group 0 and Groups() (VerifMatchArrays, Groups) are compared with the Lean builder model run on the call sequence, the model's abstract view with the generator's push/cancel stacks, and Groups() with those stacks (oracle). Every 16th case admits transfers whose interval comes out with negative length. non-trivial = has a balance or an uncapture; distinct by pattern",
 			Corpus: []c08ProgCase{},
 			N:      c.N(10000, 400000), Gen: c08ProgGen, Check: c08ProgCheck, Batch: 1000,
 		})
